@@ -4,6 +4,7 @@ CONSTANTS
   DtOverDx <- HsFull
   Operators = {"upwind", "central", "kappa13"}
   ImplKinds = {"implicit", "cranknicolson", "gear"}
+  DtModes = {"global"}
   MaxSteps = 1
   ImplDeviations = {}
 INVARIANT DefiningRelation
